@@ -198,14 +198,14 @@ Proof.
     + apply IH in H. simpl length. lia.
 Qed.
 
-Lemma read_token_end_le ml s : t_end (rc_read_token ml s) <= N.of_nat (length s).
+Lemma read_token_end_le ml s : rc_t_end (rc_read_token ml s) <= N.of_nat (length s).
 Proof.
   unfold rc_read_token. destruct (rc_next ml rc_tk0 s 0) as [[m cn] e] eqn:H.
   apply rc_next_bound in H. simpl. destruct (negb (k_in m) && negb (k_before m)); lia.
 Qed.
 
 Lemma read_token_app ml s r :
-  t_eof (rc_read_token ml s) = false -> rc_read_token ml (s ++ r) = rc_read_token ml s.
+  rc_t_eof (rc_read_token ml s) = false -> rc_read_token ml (s ++ r) = rc_read_token ml s.
 Proof.
   unfold rc_read_token. destruct (rc_next ml rc_tk0 s 0) as [[m cn] e] eqn:H. simpl. intros ->.
   rewrite (rc_next_app _ _ _ _ _ _ r H). reflexivity.
@@ -275,27 +275,27 @@ Qed.
 
 Definition step_ev (s : list N) : option rc_event * bool :=
   let t1 := rc_read_token 10 s in
-  let s1 := rc_drop (t_end t1) s in
+  let s1 := rc_drop (rc_t_end t1) s in
   if rc_is_int t1 then
     let t2 := rc_read_token 10 s1 in
     if rc_is_int t2 then
-      let t3 := rc_read_token 10 (rc_drop (t_end t2) s1) in
+      let t3 := rc_read_token 10 (rc_drop (rc_t_end t2) s1) in
       (if rc_is_word t3 rc_kw_obj
-       then Some (EvObj (rc_atoi (t_raw t1)) (rc_atoi (t_raw t2)) (t_end t1 - N.of_nat (length (t_raw t1))))
-       else None, t_eof t1 || t_eof t2 || t_eof t3)
-    else (None, t_eof t1 || t_eof t2)
-  else if rc_is_word t1 rc_kw_trailer then (Some (EvTrailer (t_end t1)), t_eof t1)
-  else if rc_is_word t1 rc_kw_startxref then (Some (EvStartxref (t_end t1)), t_eof t1)
-  else (None, t_eof t1).
+       then Some (EvObj (rc_atoi (rc_t_raw t1)) (rc_atoi (rc_t_raw t2)) (rc_t_end t1 - N.of_nat (length (rc_t_raw t1))))
+       else None, rc_t_eof t1 || rc_t_eof t2 || rc_t_eof t3)
+    else (None, rc_t_eof t1 || rc_t_eof t2)
+  else if rc_is_word t1 rc_kw_trailer then (Some (EvTrailer (rc_t_end t1)), rc_t_eof t1)
+  else if rc_is_word t1 rc_kw_startxref then (Some (EvStartxref (rc_t_end t1)), rc_t_eof t1)
+  else (None, rc_t_eof t1).
 
 Lemma scan_step_eq s :
   rc_scan_step s =
   (let '(ev, touched) := step_ev s in
-   let '(_, k, w) := rc_skip_eol (rc_drop (t_end (rc_read_token 10 s)) s) in
-   (ev, t_end (rc_read_token 10 s) + k, w, touched)).
+   let '(_, k, w) := rc_skip_eol (rc_drop (rc_t_end (rc_read_token 10 s)) s) in
+   (ev, rc_t_end (rc_read_token 10 s) + k, w, touched)).
 Proof. reflexivity. Qed.
 
-Lemma step_ev_t1 s ev : step_ev s = (ev, false) -> t_eof (rc_read_token 10 s) = false.
+Lemma step_ev_t1 s ev : step_ev s = (ev, false) -> rc_t_eof (rc_read_token 10 s) = false.
 Proof.
   unfold step_ev. destruct (rc_is_int (rc_read_token 10 s)).
   - destruct (rc_is_int _); intros H; injection H as _ H; rewrite ?orb_false_iff in H; tauto.
@@ -310,13 +310,13 @@ Proof.
   rewrite (read_token_app _ _ r H1).
   rewrite (rc_drop_app _ s r (read_token_end_le 10 s)).
   destruct (rc_is_int (rc_read_token 10 s)); [|exact H].
-  remember (rc_drop (t_end (rc_read_token 10 s)) s) as s1.
-  assert (H2 : t_eof (rc_read_token 10 s1) = false).
+  remember (rc_drop (rc_t_end (rc_read_token 10 s)) s) as s1.
+  assert (H2 : rc_t_eof (rc_read_token 10 s1) = false).
   { destruct (rc_is_int (rc_read_token 10 s1)); injection H as _ H; rewrite ?orb_false_iff in H; tauto. }
   rewrite (read_token_app _ _ r H2).
   destruct (rc_is_int (rc_read_token 10 s1)); [|exact H].
   rewrite (rc_drop_app _ s1 r (read_token_end_le 10 s1)).
-  assert (H3 : t_eof (rc_read_token 10 (rc_drop (t_end (rc_read_token 10 s1)) s1)) = false).
+  assert (H3 : rc_t_eof (rc_read_token 10 (rc_drop (rc_t_end (rc_read_token 10 s1)) s1)) = false).
   { injection H as _ H. rewrite ?orb_false_iff in H. tauto. }
   rewrite (read_token_app _ _ r H3). exact H.
 Qed.
@@ -549,7 +549,7 @@ Qed.
 Lemma read_int_token pre ds d rest :
   rs_blank pre = true -> rs_digits_ok ds = true ->
   rc_is_digit d = false -> (d =? 46) = false -> rc_is_delim d = true ->
-  rc_read_token 10 (pre ++ ds ++ d :: rest) = mkTok TtInteger ds (len pre + len ds) false.
+  rc_read_token 10 (pre ++ ds ++ d :: rest) = rc_mkTok TtInteger ds (len pre + len ds) false.
 Proof.
   intros Hb Hds Hd H46 Hdl. unfold rs_digits_ok in Hds. rewrite !andb_true_iff in Hds.
   destruct Hds as [[Hall Hpos] Hlt]. apply N.ltb_lt in Hpos, Hlt.
@@ -609,18 +609,18 @@ Proof.
   assert (NF : pre ++ (num ++ 32 :: gen ++ [32; 111; 98; 106; 10]) ++ c :: r = pre ++ num ++ 32 :: gen ++ tail3).
   { unfold tail3. repeat (rewrite <- app_assoc; simpl app). reflexivity. }
   rewrite NF.
-  assert (T1 : rc_read_token 10 (pre ++ num ++ 32 :: gen ++ tail3) = mkTok TtInteger num (len pre + len num) false).
+  assert (T1 : rc_read_token 10 (pre ++ num ++ 32 :: gen ++ tail3) = rc_mkTok TtInteger num (len pre + len num) false).
   { apply read_int_token; try assumption; reflexivity. }
   assert (S1 : rc_drop (len pre + len num) (pre ++ num ++ 32 :: gen ++ tail3) = 32 :: gen ++ tail3).
   { rewrite (app_assoc pre num). replace (len pre + len num) with (len (pre ++ num)).
     2:{ rewrite app_length. lia. } apply rc_drop_exact. }
-  assert (T2 : rc_read_token 10 (32 :: gen ++ tail3) = mkTok TtInteger gen (1 + len gen) false).
+  assert (T2 : rc_read_token 10 (32 :: gen ++ tail3) = rc_mkTok TtInteger gen (1 + len gen) false).
   { change (32 :: gen ++ tail3) with ([32] ++ gen ++ 32 :: (111 :: 98 :: 106 :: 10 :: c :: r)).
     rewrite read_int_token; try assumption; reflexivity. }
   assert (S2 : rc_drop (1 + len gen) (32 :: gen ++ tail3) = tail3).
   { change (32 :: gen ++ tail3) with (([32] ++ gen) ++ tail3). replace (1 + len gen) with (len ([32] ++ gen)).
     2:{ rewrite app_length. simpl length. lia. } apply rc_drop_exact. }
-  assert (T3 : rc_read_token 10 tail3 = mkTok TtWord [111; 98; 106] 4 false) by reflexivity.
+  assert (T3 : rc_read_token 10 tail3 = rc_mkTok TtWord [111; 98; 106] 4 false) by reflexivity.
   assert (SK : rc_skip_eol (32 :: gen ++ tail3) = (c :: r, 1 + len gen + 5, WInside)).
   { unfold rc_skip_eol. replace (32 :: gen ++ tail3) with (((32 :: gen) ++ [32; 111; 98; 106]) ++ 10 :: c :: r)
       by (unfold tail3; rewrite <- app_assoc; reflexivity).
@@ -628,9 +628,9 @@ Proof.
     2:{ rewrite forallb_app. simpl. rewrite andb_true_r. apply digits_not_eol.
         unfold rs_digits_ok in Hg. rewrite !andb_true_iff in Hg. tauto. }
     simpl rc_eols. rewrite Hc. rewrite app_length. simpl length. f_equal. f_equal. lia. }
-  rewrite scan_step_eq. unfold step_ev. rewrite T1. cbn [t_end t_raw t_eof t_ty rc_is_int].
-  rewrite S1. rewrite T2. cbn [t_end t_raw t_eof t_ty rc_is_int].
-  rewrite S2. rewrite T3. cbn [t_end t_raw t_eof t_ty rc_is_word].
+  rewrite scan_step_eq. unfold step_ev. rewrite T1. cbn [rc_t_end rc_t_raw rc_t_eof rc_t_ty rc_is_int].
+  rewrite S1. rewrite T2. cbn [rc_t_end rc_t_raw rc_t_eof rc_t_ty rc_is_int].
+  rewrite S2. rewrite T3. cbn [rc_t_end rc_t_raw rc_t_eof rc_t_ty rc_is_word].
   change (rc_beq [111; 98; 106] rc_kw_obj) with true. cbv iota. rewrite SK. cbn [orb].
   rewrite (atoi_digits _ Hn), (atoi_digits _ Hg).
   f_equal. f_equal. f_equal.
